@@ -17,7 +17,13 @@ RULE = ("generated programs (expressions, statement programs, inheritance chains
         "iterables used at for-sites -> async generators); outputs must be equal or raise the same "
         "class; include/import sets additionally through a history (render, then "
         "get_template(name, globals=...) and render again, twice) whose outcome sequence must be the "
-        "same in the sync and the async environment. distinct = program shapes x environment class")
+        "same in the sync and the async environment; single-pass streams: one data name bound to a "
+        "single-pass iterator (sync generator in the sync environment; in the async environment the same "
+        "generator, a list iterator, a true async generator or a class-based single-pass async iterator "
+        "producing the same items) and consumed 2-5 times in one template by for loops (plain, with "
+        "loop attributes, with a test, with break) and by every filter that has an async variant, so that "
+        "each consumer sees what the earlier (partial or full) consumers left over. "
+        "distinct = program shapes x environment class")
 LEVEL_TEXT = "held on the generated programs only"
 ASSUMPTIONS = [
     "iterables are asyncified only where used exclusively as `for` iterables",
@@ -31,13 +37,17 @@ FLOORS = {
                            "cls_Native": 100, "cls_Sandboxed": 100, "cls_Immutable": 100,
                            "async_filter_programs": 100, "local_autoescape_programs": 100,
                            "quirky_object_compares": 100, "template_globals_history_steps": 300,
-                           "undefined_type_StrictUndefined": 40}},
+                           "undefined_type_StrictUndefined": 40,
+                           "single_pass_compares": 800, "single_pass_reuse_after_partial": 500,
+                           "single_pass_async_generator_compares": 400}},
     "thorough": {"evaluations": 80000, "distinct": 8000,
                  "counters": {"entry_compares": 80000, "asyncified_compares": 10000,
                               "cls_Native": 2000, "cls_Sandboxed": 2000, "cls_Immutable": 2000,
                               "async_filter_programs": 2000, "local_autoescape_programs": 2000,
                               "quirky_object_compares": 100, "template_globals_history_steps": 6000,
-                              "undefined_type_StrictUndefined": 800}},
+                              "undefined_type_StrictUndefined": 800,
+                              "single_pass_compares": 16000, "single_pass_reuse_after_partial": 10000,
+                              "single_pass_async_generator_compares": 8000}},
 }
 
 
@@ -262,6 +272,176 @@ def check_quirky(ctx):
                                   f"sync {a!r} vs async {b!r} for {src!r} with data objects whose __getattr__ answers "
                                   f"unknown names", {"quirky": src, "cls": clsname})
 
+# ---- single-pass streams consumed several times in one template --------------------------------
+
+class AOnce:
+    """Class-based single-pass async iterator (its __aiter__ returns itself)."""
+
+    def __init__(self, xs):
+        self._it = iter(xs)
+
+    def __aiter__(self):
+        return self
+
+    async def __anext__(self):
+        await asyncio.sleep(0)
+        try:
+            return next(self._it)
+        except StopIteration:
+            raise StopAsyncIteration from None
+
+
+def _sync_gen(xs):
+    yield from xs
+
+
+async def _async_gen(xs):
+    for x in xs:
+        await asyncio.sleep(0)
+        yield x
+
+
+SP_STREAMS = {"gen": _sync_gen, "iter": iter, "agen": _async_gen, "aonce": AOnce}
+
+# (name, source, partial): consumers of the stream `g`; partial = may stop before the stream is exhausted.
+# Only for loops and filters that have an async variant (the documentation promises async iterables there).
+SP_COMMON = [
+    ("first", "{{ g|first }}", True),
+    ("list", "{{ g|list }}", False),
+    ("join", "{{ g|join('%(sep)s') }}", False),
+    ("for", "{%% for x in g %%}<{{ x }}>{%% else %%}E{%% endfor %%}", False),
+    ("for-loopattrs", "{%% for x in g %%}{{ loop.index }}={{ x }}{%% if not loop.last %%},{%% endif %%}{%% endfor %%}", False),
+    ("for-break", "{%% for x in g %%}{{ x }}{%% if loop.index >= %(k)d %%}{%% break %%}{%% endif %%}{%% endfor %%}", True),
+    ("for-continue", "{%% for x in g %%}{%% if loop.index is odd %%}{%% continue %%}{%% endif %%}{{ x }}{%% endfor %%}", False),
+    ("slice", "{{ g|slice(%(k)d)|list }}", False),
+    ("unique", "{{ g|unique|list }}", False),
+    ("unique-first", "{{ g|unique|first }}", True),
+    ("map-string-list", "{{ g|map('string')|list }}", False),
+    ("map-string-first", "{{ g|map('string')|first }}", True),
+    ("set-first", "{%% set h = g|first %%}{{ h }}", True),
+    ("if-first", "{%% if g|first is defined %%}Y{%% else %%}N{%% endif %%}", True),
+]
+SP_FORMS = {
+    "nums": SP_COMMON + [
+        ("sum", "{{ g|sum }}", False),
+        ("select-list", "{{ g|select('odd')|list }}", False),
+        ("reject-list", "{{ g|reject('gt', %(k)d)|list }}", False),
+        ("select-first", "{{ g|select('even')|first }}", True),
+        ("reject-first", "{{ g|reject('lt', %(k)d)|first }}", True),
+        ("for-test", "{%% for x in g if x is odd %%}{{ x }};{%% endfor %%}", False),
+    ],
+    "words": SP_COMMON + [
+        ("map-upper-join", "{{ g|map('upper')|join('%(sep)s') }}", False),
+        ("select-first", "{{ g|select('upper')|first }}", True),
+        ("reject-list", "{{ g|reject('eq', 'a')|list }}", False),
+        ("for-test", "{%% for x in g if x is lower %%}{{ x }};{%% endfor %%}", False),
+    ],
+    "recs": SP_COMMON + [
+        ("mapattr-list", "{{ g|map(attribute='id')|list }}", False),
+        ("mapattr-first", "{{ g|map(attribute='id')|first }}", True),
+        ("sumattr", "{{ g|sum(attribute='id') }}", False),
+        ("selectattr-list", "{{ g|selectattr('a')|map(attribute='id')|list }}", False),
+        ("selectattr-first", "{{ (g|selectattr('a')|first).id }}", True),
+        ("rejectattr-first", "{{ (g|rejectattr('a', 'eq', 1)|first).id }}", True),
+        ("groupby", "{%% for k, items in g|groupby('a') %%}{{ k }}:{{ items|length }};{%% endfor %%}", False),
+        ("joinattr", "{{ g|join('%(sep)s', attribute='id') }}", False),
+        ("first-attr", "{{ (g|first).id }}", True),
+    ],
+}
+
+
+def gen_single_pass(rng):
+    pick = lambda xs: xs[rng.randrange(len(xs))]
+    kind = pick(["nums", "words", "recs"])
+    n = rng.randint(0, 7)
+    if kind == "nums":
+        items = [rng.randint(0, 6) for _ in range(n)]
+    elif kind == "words":
+        items = [pick(["a", "A", "b", "B", "c"]) for _ in range(n)]
+    else:
+        items = [{"id": i, "a": pick([0, 1, 2])} for i in range(n)]
+    uses = []
+    parts = []
+    for j in range(rng.randint(2, 5)):
+        name, src, partial = pick(SP_FORMS[kind])
+        uses.append(name)
+        parts.append(src % {"k": rng.randint(1, 3), "sep": pick([",", "", "-"])})
+    # a partial consumer that is followed by another consumer of the same stream
+    table = {nm: p for nm, _, p in SP_FORMS[kind]}
+    reuse = any(table[u] for u in uses[:-1])
+    # the true async generator always, plus one of the other single-pass stream kinds
+    streams = ["agen", pick(["aonce", "gen", "iter"])]
+    return {"single_pass": True, "streams": streams, "stream_items": kind, "items": items, "uses": uses, "parts": parts,
+            "src": "".join(f"[u{j}:{p}]" for j, p in enumerate(parts)),
+            "reuse_after_partial": reuse}
+
+
+def check_single_pass(ctx, case, clsname):
+    """Sync environment + sync generator is the reference; the async environment of the same class gets
+    a single-pass stream of the same items (sync or async) and must render the same through every entry."""
+    cls = env_classes()[clsname]
+    native = clsname == "Native"
+    src, items = case["src"], case["items"]
+    senv = cls(extensions=corpus.EXTENSIONS)
+    aenv = cls(extensions=corpus.EXTENSIONS, enable_async=True)
+    base = util.capture(lambda: senv.from_string(src).render(g=_sync_gen(list(items))))
+    ctx.count("cls_" + clsname)
+    def entries(source, sname):
+        t = lambda: aenv.from_string(source)
+        mk = lambda: {"g": SP_STREAMS[sname](list(items))}
+        ents = {"render": lambda: t().render(mk()),
+                "render_async": lambda: util.run_async(t().render_async(mk()))}
+        if not native:
+            ents["generate"] = lambda: "".join(t().generate(mk()))
+
+            async def collect():
+                return "".join([x async for x in t().generate_async(mk())])
+            ents["generate_async"] = lambda: util.run_async(collect())
+        return ents
+
+    bad = False
+    for sname in case.get("streams") or sorted(SP_STREAMS):
+        for en, f in entries(src, sname).items():
+            o = util.capture(f)
+            ctx.ev()
+            ctx.count("single_pass_compares")
+            if sname == "agen":
+                ctx.count("single_pass_async_generator_compares")
+            if case["reuse_after_partial"]:
+                ctx.count("single_pass_reuse_after_partial")
+            if same(base, o, native):
+                continue
+            bad = True
+            # localize the mechanism: which consumer leaves the stream in a different state (or renders
+            # differently) in async mode?  probe = that consumer alone, then the leftovers as a list.
+            found = 0
+            seen = []
+            for use, part in zip(case["uses"], case["parts"], strict=True):
+                if part in seen:
+                    continue
+                seen.append(part)
+                probe = part + "|{{ g|list }}"
+                pb = util.capture(lambda: senv.from_string(probe).render(g=_sync_gen(list(items))))
+                po = util.capture(entries(probe, sname)[en])
+                ctx.ev()
+                ctx.count("single_pass_localization_probes")
+                if not same(pb, po, False):
+                    found += 1
+                    ctx.violation(f"parity-single-pass:leftover-after:{use}:{sname}",
+                                  f"{clsname} {en}: consumer then `g|list` on the same single-pass stream: sync env + "
+                                  f"generator {pb!r} vs async env with {sname} stream {po!r} | probe={probe!r} "
+                                  f"items={items!r} (found in src={src!r}: {base!r} vs {o!r})",
+                                  {"single_pass": case, "cls": clsname})
+            if not found:
+                ctx.violation(f"parity-single-pass:sequence:{sname}:{'+'.join(case['uses'])}",
+                              f"{clsname} {en}: sync env + generator {base!r} vs async env with single-pass {sname} "
+                              f"stream {o!r} | src={src!r} items={items!r} uses={case['uses']}",
+                              {"single_pass": case, "cls": clsname})
+            break   # one entry per stream kind is enough once it diverges
+    if bad:
+        return
+    ctx.dist([clsname, "single_pass", case["stream_items"], case["uses"], len(items)])
+
 
 def corpus_unwrap(body):
     """Undo a previous localize() wrap (used to re-wrap expression programs with a constant flag)."""
@@ -276,6 +456,7 @@ def corpus_unwrap(body):
 
 def run(ctx):
     rng = ctx.rng("c09")
+    rng_sp = ctx.rng("c09-single-pass")
     n = 1200 if ctx.tier == "quick" else 30000
     names = list(env_classes())
     if ctx.shard % 4 == 0:
@@ -310,6 +491,11 @@ def run(ctx):
             check_case(ctx, case, clsname, undefined=["StrictUndefined", "ChainableUndefined"][(i // 4) % 2])
         if case["kind"] == "incimp":
             check_globals_history(ctx, case, clsname)
+        if i % 3 == 2:
+            sp = gen_single_pass(rng_sp)
+            check_single_pass(ctx, sp, names[(i // 3) % len(names)])
+            if i < 6:
+                ctx.sample({"single_pass": sp["src"], "items": sp["items"]})
         if i < 2:
             ctx.sample({"sources": corpus.sources(case), "cls": clsname})
         i += 1
@@ -318,6 +504,8 @@ def run(ctx):
 def replay(ctx, case):
     if "quirky" in case:
         return check_quirky(ctx)
+    if "single_pass" in case:
+        return check_single_pass(ctx, case["single_pass"], case["cls"])
     if case.get("history"):
         return check_globals_history(ctx, case["case"], case["cls"])
     check_case(ctx, case["case"], case["cls"])
